@@ -39,7 +39,9 @@ ASSUMPTIONS = [
 BUDGET_S = {"quick": 600, "thorough": 3000}
 TOL = 1e-10
 
-KINDS = [k for k in F.ALL_KINDS if k != "pure"]
+# pure_dep / em_dep: one supplied tensor is a function of another supplied tensor (reference: pure_depref)
+DEP_KINDS = ["pure_dep", "em_dep"]
+KINDS = [k for k in F.ALL_KINDS if k != "pure"] + DEP_KINDS
 FUNCS = F.FUNCTIONALS + ["jac_solve"]
 
 
@@ -149,7 +151,7 @@ def run_case(cfg):
     import xitorch
     xitorch.set_debug_mode(False)
     base = cfg["kind"][4:] if cfg["kind"].startswith("sib:") else cfg["kind"]
-    refkind = "pure_derived" if base == "em_derived" else "pure"
+    refkind = "pure_derived" if base == "em_derived" else ("pure_depref" if base in DEP_KINDS else "pure")
     ref = _reference(refkind, cfg)
     if ref["exc"] is not None or ref["stage"] is not None or not (_finite(ref["out"]) and _finite(ref["g1"])
                                                                     and _finite(ref["g2"])):
